@@ -131,14 +131,14 @@ def unit_ends(seq, enc, at_end_of_read):
     for i in range(len(seq)):
         if i not in reach:
             continue
-        for k in TABLE_KEYS:
-            if seq.startswith(k, i):
-                if enc == "utf8" and len(k) == 1 and k[0] >= 0x80 and not (at_end_of_read and i + 1 == len(seq)):
-                    continue
-                reach.add(i + len(k))
-        for n in range(1, 5):
+        for n in range(1, kc.MAXLEN + 1):
             piece = seq[i:i + n]
-            if len(piece) == n:
+            if len(piece) < n:
+                break
+            if piece in kc.TABLE_SET and not (enc == "utf8" and n == 1 and piece[0] >= 0x80
+                                              and not (at_end_of_read and i + 1 == len(seq))):
+                reach.add(i + n)
+            if n <= 4:
                 try:
                     if len(piece.decode(ENCS[enc])) == 1:
                         reach.add(i + n)
@@ -182,7 +182,7 @@ def fk(buf, enc, mode):
         return "raise", f
 
 
-def oracle_table(enc, u, rest, rest_is_units):
+def oracle_table(enc, u, rest, rest_is_units, modes=tuple(MODES)):
     """a recognised sequence u arriving whole, followed by rest; -> list of (what, footprint)"""
     bad = []
     longer = kc.is_table_prefix(u)                       # u is also the beginning of a longer recognised sequence
@@ -196,7 +196,7 @@ def oracle_table(enc, u, rest, rest_is_units):
                 bad.append(("recognised sequence broken up: a proper prefix is reported as a key", None))
         except Exception as e:  # noqa: BLE001
             bad.append(("proper prefix of a recognised sequence raises %s" % type(e).__name__, None))
-    for mode in MODES:
+    for mode in modes:
         st, r = fk(u + rest, enc, mode)
         if st == "raise":
             if (not rest or not longer) or rest_is_units:
@@ -275,100 +275,123 @@ def nontriv(h):
     return len(h) > 2 or h[:1] in "89abcdef"
 
 
+def par_tie(ctx, name, cases, procs):
+    """ctx.tie with the real code evaluated by forked workers (same cases, same order)"""
+    for lo in range(0, len(cases), 250000):
+        chunk = cases[lo:lo + 250000]
+        it = iter(kc.par_map(impl, chunk, procs))
+        ctx.tie(name, chunk, line, lambda c: next(it))
+
+
+def w_node(a):
+    return oracle_node(*a)
+
+
+def w_table(a):
+    return oracle_table(*a)
+
+
+def w_char(a):
+    return oracle_char(*a)
+
+
+def w_stream(a):
+    return oracle_stream(*a)
+
+
+def w_e2e(a):
+    enc, buf, mode = a
+    real = kc.e2e_segment(buf, enc, mode)
+    try:
+        mine = [(k, len(c)) for k, c in kc.segment(buf, enc, mode)]
+    except kc.FindFailure as f:
+        mine = kc.exc_kind(f.exc)
+    return None if real == mine else (repr(real), repr(mine))
+
+
 def check(ctx, search=False):
+    procs = 16 if ctx.thorough else 8
     tr = trees(ctx)
     # ---- tie 1 + node oracle: the decision tree ------------------------------------------------------------
     for enc, nodes in tr.items():
-        for lo in range(0, len(nodes), 40000):
-            chunk = nodes[lo:lo + 40000]
-            cases = [("getkey", enc, mode, full, hx(n)) for n in chunk for full in (0, 1) for mode in MODES]
-            if not search:
-                ctx.tie("C03/getkey-tree-" + enc, cases, line, impl)
-            for c in cases:
-                ctx.count(c, nontrivial=nontriv(c[4]), tag="getkey-" + enc)
-            for n in chunk:
-                for full in (False, True):
-                    b = oracle_node(enc, n, full)
-                    if b:
-                        report(ctx, b, ("getkey", enc, "curtsies", int(full), hx(n)))
-    # ---- tie 2 + table oracle: every table sequence alone / x every next byte / x every table sequence -------
-    ntab = 0
-    for enc in ENCS:
-        cases = []
-        for u in TABLE_KEYS:
-            rests = [(b"", True)] + [(bytes([b]), None) for b in range(256)]
-            if enc == "utf8" or ctx.thorough:
-                rests += [(v, True) for v in TABLE_KEYS]
-            else:
-                rests += [(v, True) for v in TABLE_KEYS[ctx.rng.randrange(8)::8]]
-            for rest, is_units in rests:
-                if is_units is None:
-                    is_units = len(rest) in unit_ends(rest, enc, True)
-                for mode in MODES:
-                    cases.append(("findkey", enc, mode, 0, hx(u + rest)))
-                b = oracle_table(enc, u, rest, is_units)
-                ntab += 1
-                if b:
-                    report(ctx, b, ("findkey", enc, "curtsies", 0, hx(u + rest)))
+        cases = [("getkey", enc, mode, full, hx(n)) for n in nodes for full in (0, 1) for mode in MODES]
         if not search:
-            for lo in range(0, len(cases), 200000):
-                ctx.tie("C03/findkey-table-" + enc, cases[lo:lo + 200000], line, impl)
+            par_tie(ctx, "C03/getkey-tree-" + enc, cases, procs)
+        for c in cases:
+            ctx.count(c, nontrivial=nontriv(c[4]), tag="getkey-" + enc)
+        items = [(enc, bytes(n), full) for n in nodes for full in (False, True)]
+        for it, b in zip(items, kc.par_map(w_node, items, procs)):
+            if b:
+                report(ctx, b, ("getkey", it[0], "curtsies", int(it[2]), hx(it[1])))
+    # ---- tie 2 + table oracle: every table sequence alone / x every next byte / x table sequences ------------
+    ntab = 0
+    r = ctx.rng
+    for enc in ENCS:
+        cases, items = [], []
+        single_is_units = {b: 1 in unit_ends(bytes([b]), enc, True) for b in range(256)}
+        for u in TABLE_KEYS:
+            rests = [(b"", True, tuple(MODES))]
+            for b in range(256):
+                modes = tuple(MODES) if (ctx.thorough or (enc == "utf8" and b % 4 == 1)) else ("curtsies",)
+                rests.append((bytes([b]), single_is_units[b], modes))
+            step = 1 if ctx.thorough else (3 if enc == "utf8" else 12)
+            rests += [(v, True, ("curtsies",)) for v in TABLE_KEYS[r.randrange(step)::step]]
+            for rest, is_units, modes in rests:
+                for mode in modes:
+                    cases.append(("findkey", enc, mode, 0, hx(u + rest)))
+                items.append((enc, u, rest, is_units, modes))
+        ntab += len(items)
+        if not search:
+            par_tie(ctx, "C03/findkey-table-" + enc, cases, procs)
         for c in cases:
             ctx.count(c, nontrivial=True, tag="findkey-table-" + enc)
-    ctx.exhaustive.append("every table sequence (%d) alone, x every next byte, x table sequences: %d (sequence, continuation, encoding) triples x 3 modes" % (len(TABLE_KEYS), ntab))
+        for it, b in zip(items, kc.par_map(w_table, items, procs)):
+            if b:
+                report(ctx, b, ("findkey", enc, "curtsies", 0, hx(it[1] + it[2])))
+    ctx.exhaustive.append("every table sequence (%d) alone, x every next byte, x %s table sequences: %d (sequence, continuation, "
+                          "encoding) triples" % (len(TABLE_KEYS), "all" if ctx.thorough else "every 3rd (utf-8) / 12th", ntab))
     # ---- tie 3 + character oracle: scalar values ------------------------------------------------------------
     sc = scalars(ctx)
     ctx.exhaustive.append("scalar values: %d%s" % (len(sc), " (all)" if ctx.thorough else " (boundaries, 0..0x17f, seeded sample)"))
-    for lo in range(0, len(sc), 50000):
-        cases = []
-        for c in sc[lo:lo + 50000]:
+    for lo in range(0, len(sc), 100000):
+        cases, items = [], []
+        part = sc[lo:lo + 100000]
+        for c in part:
             for enc in ENCS:
                 bs = char_bytes(c, enc)
                 if bs is None:
                     continue
-                conts = CONTS if (c < 0x180 or c % 7 == 0 or not ctx.thorough) else CONTS[:2]
+                conts = CONTS if (c < 0x180 or c % 5 == 0) else CONTS[:2]
                 for rest in conts:
                     cases.append(("findkey", enc, "curtsies", 0, hx(bs + rest)))
-                    b = oracle_char(enc, c, rest)
-                    if b:
-                        report(ctx, b, ("findkey", enc, "curtsies", 0, hx(bs + rest)))
+                    items.append((enc, c, rest))
                 cases.append(("findkey", enc, "curses", 0, hx(bs)))
                 cases.append(("findkey", enc, "bytes", 0, hx(bs + b"a")))
         if not search:
-            ctx.tie("C03/findkey-chars", cases, line, impl)
-            enc_cases = [c for c in sc[lo:lo + 50000]]
-            ctx.tie("C03/utf8-encode", enc_cases, lambda c: "utf8enc %d" % c, lambda c: "ok " + hx(chr(c).encode("utf-8")))
+            par_tie(ctx, "C03/findkey-chars", cases, procs)
+            ctx.tie("C03/utf8-encode", part, lambda c: "utf8enc %d" % c, lambda c: "ok " + hx(chr(c).encode("utf-8")))
         for c in cases:
             ctx.count(c, nontrivial=True, tag="findkey-chars")
+        for it, b in zip(items, kc.par_map(w_char, items, procs)):
+            if b:
+                report(ctx, b, ("findkey", it[0], "curtsies", 0, hx(char_bytes(it[1], it[0]) + it[2])))
     # ---- tie 4 + stream oracle ------------------------------------------------------------------------------
     streams = random_streams(ctx, 6000 if ctx.thorough else 1200)
-    cases = []
-    for enc, units, kind in streams:
-        buf = b"".join(units)
-        for mode in MODES:
-            cases.append(("segment", enc, mode, 0, hx(buf)))
-        b = oracle_stream(enc, units, kind)
-        if b:
-            report(ctx, b, ("segment", enc, "curtsies", 0, hx(buf)))
+    cases = [("segment", enc, mode, 0, hx(b"".join(units))) for enc, units, kind in streams for mode in MODES]
     if not search:
-        ctx.tie("C03/segment-streams", cases, line, impl)
+        par_tie(ctx, "C03/segment-streams", cases, procs)
     for c, (enc, units, kind) in zip(cases[::3], streams):
         ctx.count(c, nontrivial=True, tag="stream-" + kind)
+    for it, b in zip(streams, kc.par_map(w_stream, streams, procs, chunksize=200)):
+        if b:
+            report(ctx, b, ("segment", it[0], "curtsies", 0, hx(b"".join(it[1]))))
     # ---- the transcribed find_key loop against the real closure inside Input._send ---------------------------
-    bad_e2e = 0
-    for enc, units, kind in streams[::7]:
-        buf = b"".join(units)
-        for mode in MODES:
-            real = kc.e2e_segment(buf, enc, mode)
-            try:
-                mine = [(k, len(c)) for k, c in kc.segment(buf, enc, mode)]
-            except kc.FindFailure as f:
-                mine = kc.exc_kind(f.exc)
-            if real != mine:
-                bad_e2e += 1
-                if bad_e2e <= 3:
-                    ctx.disagreements.append(("C03/e2e-find_key", ("segment", enc, mode, 0, hx(buf)), repr(real), repr(mine)))
-    ctx.ties["C03/e2e-find_key"] = dict(compared=3 * len(streams[::7]), disagreements=bad_e2e)
+    items = [(enc, b"".join(units), mode) for enc, units, kind in streams[::5] for mode in MODES]
+    res = kc.par_map(w_e2e, items, procs, chunksize=100)
+    bad = [(it, d) for it, d in zip(items, res) if d]
+    for it, d in bad[:3]:
+        ctx.disagreements.append(("C03/e2e-find_key", ("segment", it[0], it[2], 0, hx(it[1])), d[0], d[1]))
+    ctx.ties["C03/e2e-find_key"] = dict(compared=len(items), disagreements=len(bad))
     # ---- D12 witness replayed on the real code --------------------------------------------------------------
     for enc in ("utf8", "ascii"):
         try:
